@@ -66,6 +66,7 @@ type FuncContract struct {
 	Extern      bool           // declared in an ext (.gowp) file
 	Ghosts      []GhostLoopVar // function-level ghost variables
 	SingleTx    bool           // single_transaction: all database writes happen inside exactly one walletdb.Update
+	GhostRets   []GhostLoopVar // ghostret $v := e: ghost statement executed at every return (results are in scope)
 	GhostSets   []GhostLoopVar // ghostset $v := e: ghost statement executed on entry of the function (scalar ghost variables)
 	UnblocksOn  []Expr         // every blocking channel operation must be able to fire a receive on one of these channels
 	Durable     bool           // a durable step: callers assert their crash invariant after it
@@ -142,7 +143,7 @@ var labelRe = regexp.MustCompile(`^([A-Za-z][A-Za-z0-9_\-]*):(?:[^:]|$)`)
 var clauseKW = map[string]bool{
 	"requires": true, "ensures": true, "modifies": true, "loop": true, "assume-only": true, "pure": true,
 	"inline": true, "assert": true, "assume": true, "props": true, "noframe": true, "fresh": true, "panics_if": true, "ghost": true,
-	"durable": true, "crashstates": true, "havoc": true, "guards": true, "invariant": true, "unblocks_on": true, "ghostset": true, "single_transaction": true,
+	"durable": true, "crashstates": true, "havoc": true, "guards": true, "invariant": true, "unblocks_on": true, "ghostset": true, "ghostret": true, "single_transaction": true,
 }
 var topKW = map[string]bool{
 	"func": true, "define": true, "abstract": true, "sort": true, "axiom": true, "ghost": true, "package": true, "ignore": true, "implements": true,
@@ -498,6 +499,16 @@ func ParseSpecFile(path string, pkgPath string) (*SpecFile, error) {
 				return nil, fmt.Errorf("%s:%d: %v", path, it.line, err)
 			}
 			cur.Ghosts = append(cur.Ghosts, GhostLoopVar{Name: n, Type: strings.TrimSpace(r2[:i]), Init: ini})
+		case "ghostret":
+			n, r2 := firstWord(rest)
+			if !strings.HasPrefix(n, "$") || !strings.HasPrefix(strings.TrimSpace(r2), ":=") {
+				return nil, fmt.Errorf("%s:%d: ghostret wants '$v := expr'", path, it.line)
+			}
+			e, err := ParseExpr(strings.TrimPrefix(strings.TrimSpace(r2), ":="))
+			if err != nil {
+				return nil, fmt.Errorf("%s:%d: %v", path, it.line, err)
+			}
+			cur.GhostRets = append(cur.GhostRets, GhostLoopVar{Name: n, Init: e})
 		case "ghostset":
 			n, r2 := firstWord(rest)
 			if !strings.HasPrefix(n, "$") || !strings.HasPrefix(strings.TrimSpace(r2), ":=") {
